@@ -429,7 +429,7 @@ fn run(ctx: &Ctx) {
         std::process::exit(2);
     }
     ctx.set_shrink_budget(400);
-    ctx.run_sub("generated", ctx.tier.pick(1_200, 25_000), strategy, check);
+    ctx.run_sub("generated", ctx.tier.pick(2_500, 30_000), strategy, check);
 }
 
 fn replay(ctx: &Ctx, sub: &str, case: &Value) -> Result<Outcome, String> {
